@@ -344,14 +344,14 @@ Definition block_ok (b : option bytes) : Prop := match b with Some x => len x < 
 
 Definition op_ok (o : op) : Prop :=
   match o with
-  | OPeerFrame gs gf _ => gs < grease_range /\ gf < grease_range
-  | OAccept sid tl => sid mod 4 = 0 /\ sid < 2 ^ 62 /\ block_ok tl
+  | OPeerControl _ gs gf _ => gs < grease_range /\ gf < grease_range
+  | OAccept sid out => sid mod 4 = 0 /\ sid < 2 ^ 62 /\ match out with ATooLarge b => len b < 2 ^ 62 | _ => True end
   | ORequest b => block_ok b
   | OHeaders _ b => block_ok b
   | OData _ p => nonempty_chunks p /\ len (concat p) < 2 ^ 62
   | OFinish _ g => g < grease_range
   | OShutdown n => n < 2 ^ 64
-  | OStop _ | ODrop _ => True
+  | OStop _ | ODrop _ | OStopSending _ | OPoll => True
   end.
 
 Lemma nth_n_In {A} (l : list A) i x : nth_n l i = Some x -> In x l.
@@ -366,6 +366,12 @@ Proof.
   destruct (nth_n (c_handles c) h) as [hd'|] eqn:E; [|discriminate].
   destruct (h_alive hd'); [|discriminate]. inversion Hl; subst.
   rewrite Forall_forall in Hh. apply Hh. eapply nth_n_In. exact E.
+Qed.
+
+Lemma writable_handle_sid c h hd : cinv c -> writable_handle c h = Some hd -> h_sid hd mod 4 = 0.
+Proof.
+  intros Hc Hw. unfold writable_handle in Hw. destruct (live_handle c h) as [hd'|] eqn:E; [|discriminate].
+  destruct (h_stopped hd'); [discriminate|]. inversion Hw; subst. eapply live_handle_sid; eauto.
 Qed.
 
 Lemma map_nth_Forall {A} (P : A -> Prop) f i (l : list A) :
@@ -509,11 +515,11 @@ Proof.
   - destruct Hok as (A & _). lia.
 Qed.
 
-Lemma peer_frame_ok c gs gf accepted :
+Lemma grease_poll_ok c gs gf accepted :
   cinv c -> gs < grease_range -> gf < grease_range ->
-  exists c', step c (OPeerFrame gs gf accepted) = Ok c' /\ cinv c'.
+  exists c', grease_poll c gs gf accepted = Ok c' /\ cinv c'.
 Proof.
-  intros Hc Hgs Hgf. cbn [step]. destruct (c_grease_stream c); [|exists c; auto].
+  intros Hc Hgs Hgf. unfold grease_poll. destruct (c_grease_stream c); [|exists c; auto].
   destruct gen_setup as (_ & _ & -> & _).
   destruct (c_grease_id c) as [gid|] eqn:Egid.
   - (* resuming the write *)
@@ -572,15 +578,44 @@ Proof.
       split; [exact I|]. split; assumption.
 Qed.
 
+Lemma set_conn_error_ok c : cinv c -> cinv (set_conn_error c).
+Proof. apply cinv_fields; reflexivity. Qed.
+
+Lemma accept_idle_ok c : cinv c -> exists c', accept_idle c = Ok c' /\ cinv c'.
+Proof.
+  intros Hc. unfold accept_idle. destruct (c_conn_error c); [exists c; auto|].
+  destruct (c_recv_closing c); [|exists c; auto]. destruct (c_ongoing c); [|exists c; auto].
+  apply api_shutdown_ok; [exact Hc|vm_compute; reflexivity].
+Qed.
+
 Lemma step_ok c o : cinv c -> op_ok o -> exists c', step c o = Ok c' /\ cinv c'.
 Proof.
-  intros Hc Ho. destruct o as [gs gf acc|sid tl|b|h b|h p|h g|h|h|n]; cbn [op_ok] in Ho.
-  - destruct Ho. apply peer_frame_ok; assumption.
+  intros Hc Ho. destruct o as [f gs gf acc| |sid out|b|h b|h p|h g|h|h|h|n]; cbn [op_ok] in Ho.
+  - (* a control frame of the peer *)
+    destruct Ho as [Hgs Hgf]. cbn [step]. destruct (c_conn_error c); [exists c; auto|].
+    destruct f as [|id| | |].
+    + destruct (c_got_settings c); [eexists; split; [reflexivity|apply set_conn_error_ok; exact Hc]|].
+      apply grease_poll_ok; auto. apply (cinv_fields c); auto.
+    + destruct (c_got_settings c); cbn [negb]; [|eexists; split; [reflexivity|apply set_conn_error_ok; exact Hc]].
+      destruct (grease_poll_ok c gs gf acc Hc Hgs Hgf) as (c1 & E1 & Hc1). rewrite E1.
+      destruct (negb (c_server c1) && negb (sid_is_request id)).
+      * eexists. split; [reflexivity|apply set_conn_error_ok; exact Hc1].
+      * eexists. split; [reflexivity|]. unfold process_goaway.
+        destruct (match c_recv_closing c1 with Some prev => prev <? id | None => false end);
+          apply (cinv_fields c1); auto.
+    + destruct (c_got_settings c); cbn [negb]; [|eexists; split; [reflexivity|apply set_conn_error_ok; exact Hc]].
+      destruct (grease_poll_ok c gs gf acc Hc Hgs Hgf) as (c1 & E1 & Hc1). rewrite E1.
+      destruct (c_server c1); eexists; (split; [reflexivity|]); [exact Hc1|apply set_conn_error_ok; exact Hc1].
+    + exists c. auto.
+    + eexists. split; [reflexivity|apply set_conn_error_ok; exact Hc].
+  - (* accept() with nothing to accept *)
+    cbn [step]. destruct (c_server c); [apply accept_idle_ok; exact Hc|exists c; auto].
   - (* accept *)
     destruct Ho as (Hsid & Hlt & Hb). cbn [step]. destruct (c_server c) eqn:Esrv; cbn [negb]; [|exists c; auto].
     pose proof (add_request_stream_ok c sid Hc Hsid) as Hc0.
     destruct (add_stream_streams_req c sid) as (F1 & F2 & F3 & F4 & F5 & F6 & F7 & F8 & F9 & F10 & F11).
     set (c0 := add_stream c sid KRequest) in *.
+    destruct (c_conn_error c0); [exists c0; auto|].
     destruct (match c_sent_closing c0 with Some m => m <=? sid | None => false end).
     + destruct (c_ongoing c0); [|exists c0; auto].
       apply api_shutdown_ok; [exact Hc0|vm_compute; reflexivity].
@@ -592,15 +627,16 @@ Proof.
       { destruct Hc0 as (Hs & Hnu & Hct & Hlt' & Hh & Hg & Hbb & Hl). unfold cinv, c1.
         cbn [set_ongoing set_last_accepted set_grease_frame c_server c_streams c_next_uni c_control c_handles c_grease_id c_next_bidi c_last_accepted].
         cinv_split; assumption. }
-      destruct tl as [block|].
-      * destruct (headers_out block Hb) as (w & E & Hreq).
-        destruct (write_to_request c1 sid (FHeaders block) w Hc1 Hsid E Hreq) as (c2 & E2 & Hc2 & _).
-        rewrite E2. eexists. split; [reflexivity|]. apply (cinv_fields c2); auto.
+      destruct out as [stopped|block|ce].
       * eexists. split; [reflexivity|].
         destruct Hc1 as (Hs & Hnu & Hct & Hlt' & Hh & Hg & Hbb & Hl). unfold cinv.
         cbn [set_handles c_server c_streams c_next_uni c_control c_handles c_grease_id c_next_bidi c_last_accepted].
         cinv_split; try assumption.
         apply Forall_app. split; [exact Hh|]. constructor; [exact Hsid|constructor].
+      * destruct (headers_out block Hb) as (w & E & Hreq).
+        destruct (write_to_request c1 sid (FHeaders block) w Hc1 Hsid E Hreq) as (c2 & E2 & Hc2 & _).
+        rewrite E2. eexists. split; [reflexivity|]. apply (cinv_fields c2); auto.
+      * eexists. split; [reflexivity|]. destruct ce; [apply set_conn_error_ok|]; apply (cinv_fields c1); auto.
   - (* send_request *)
     cbn [step]. destruct (c_server c) eqn:Esrv; cbn [orb]; [exists c; auto|].
     destruct (c_closing c); [exists c; auto|].
@@ -623,15 +659,15 @@ Proof.
     cinv_split; try assumption.
     apply Forall_app. split; [exact Hh|]. constructor; [exact Hnb|constructor].
   - (* send_response / send_trailers *)
-    cbn [step]. destruct (live_handle c h) as [hd|] eqn:El; [|exists c; auto].
+    cbn [step]. destruct (writable_handle c h) as [hd|] eqn:El; [|exists c; auto].
     destruct b as [blk|]; [|exists c; auto].
-    pose proof (live_handle_sid c h hd Hc El) as Hsid.
+    pose proof (writable_handle_sid c h hd Hc El) as Hsid.
     destruct (headers_out blk Ho) as (w & E & Hreq).
     destruct (write_to_request c (h_sid hd) (FHeaders blk) w Hc Hsid E Hreq) as (c2 & E2 & Hc2 & _).
     exists c2. auto.
   - (* send_data *)
-    destruct Ho as [Hne Hlen]. cbn [step]. destruct (live_handle c h) as [hd|] eqn:El; [|exists c; auto].
-    pose proof (live_handle_sid c h hd Hc El) as Hsid.
+    destruct Ho as [Hne Hlen]. cbn [step]. destruct (writable_handle c h) as [hd|] eqn:El; [|exists c; auto].
+    pose proof (writable_handle_sid c h hd Hc El) as Hsid.
     destruct (data_out p Hne Hlen) as (w & E & Hreq).
     destruct (write_to_request c (h_sid hd) (FData p) w Hc Hsid E Hreq) as (c2 & E2 & Hc2 & _).
     exists c2. auto.
@@ -639,6 +675,7 @@ Proof.
     cbn [step]. destruct (live_handle c h) as [hd|] eqn:El; [|exists c; auto].
     pose proof (live_handle_sid c h hd Hc El) as Hsid.
     destruct gen_setup as (_ & _ & _ & -> & _).
+    destruct (h_stopped hd && h_grease hd && true); [exists c; auto|].
     assert (Hr : exists c1, (if h_grease hd && true then write_to c (h_sid hd) (wb_from_frame (FGrease g)) None else Ok c) = Ok c1 /\ cinv c1).
     { destruct (h_grease hd); cbn [andb].
       - destruct (grease_frame_out g Ho) as (w & E & Hreq).
@@ -652,6 +689,13 @@ Proof.
     cinv_split; try assumption.
     destruct (h_grease hd); [|exact Hh]. apply map_nth_Forall; [exact Hh|]. intros x Hx. exact Hx.
   - exists c. auto.
+  - (* STOP_SENDING *)
+    cbn [step]. destruct (live_handle c h) as [hd|]; [|exists c; auto].
+    eexists. split; [reflexivity|].
+    destruct Hc as (Hs & Hnu & Hct & Hlt' & Hh & Hg & Hbb & Hl). unfold cinv.
+    cbn [set_handles c_server c_streams c_next_uni c_control c_handles c_grease_id c_next_bidi c_last_accepted].
+    cinv_split; try assumption.
+    apply map_nth_Forall; [exact Hh|]. intros x Hx. exact Hx.
   - (* drop *)
     cbn [step]. destruct (live_handle c h) as [hd|]; [|exists c; auto].
     eexists. split; [reflexivity|].
